@@ -84,8 +84,12 @@ class CFGBuilder(AstVisitor[BB | None]):
         returns_none: bool,
         globals: Globals,
         unitary_flags: UnitaryFlags = UnitaryFlags.NoFlags,
+        parent: ast.AST | None = None,
     ) -> CFG:
         """Builds a CFG from a list of ast nodes.
+
+        The optional `parent` node is used to locate errors if the list is empty (e.g. the
+        body of a function that only consists of a docstring).
 
         We also require the expected number of return ports for the whole CFG. This is
         needed to translate return statements into assignments of dummy return
@@ -109,7 +113,10 @@ class CFGBuilder(AstVisitor[BB | None]):
             if final_bb.reachable:
                 self.cfg.exit_bb.reachable = True
                 if not returns_none:
-                    raise GuppyError(ExpectedError(nodes[-1], "return statement"))
+                    last = nodes[-1] if nodes else parent
+                    if last is None:
+                        raise InternalGuppyError("Empty body without location")
+                    raise GuppyError(ExpectedError(last, "return statement"))
 
         # Prune the CFG such that there are no jumps from unreachable code back into
         # reachable code. Otherwise, unreachable code could lead to unnecessary type
@@ -322,7 +329,7 @@ class CFGBuilder(AstVisitor[BB | None]):
         func_ty = check_signature(node, self.globals)
         returns_none = isinstance(func_ty.output, NoneType)
         # No UnitaryFlags are assigned to nested functions
-        cfg = CFGBuilder().build(node.body, returns_none, self.globals)
+        cfg = CFGBuilder().build(node.body, returns_none, self.globals, parent=node)
 
         new_node = NestedFunctionDef(
             cfg,
